@@ -63,19 +63,20 @@ def jobs(tier, seed):
         n = file_len(sh)
         for kind in ("replace", "cut", "nibblecut"):
             allpos = list(range(n))
-            if tier == "quick" and kind == "replace" and sh["framing"] == "bec2":
-                # auth-block ciphertext: the uninterpreted cipher treats the 16 bytes of a block alike;
-                # quick keeps one byte of the second cipher block, thorough runs every position
+            if kind == "replace" and sh["framing"] == "bec2":
+                # auth-block ciphertext: the uninterpreted cipher treats the 16 bytes of a block alike; quick keeps one
+                # byte of the second cipher block, thorough the first and last byte of both blocks (every ciphertext
+                # position costs ~7 min: all 32 per block did not fit a tier that can be run end to end)
                 skip = set()
                 p0 = 5
                 for _ in sh["blocks"]:
                     ct = list(range(p0 + 2, p0 + 2 + 32))
-                    skip |= set(ct) - {ct[16]}
+                    skip |= set(ct) - ({ct[16]} if tier == "quick" else {ct[0], ct[15], ct[16], ct[31]})
                     p0 += 34
                 allpos = [x for x in allpos if x not in skip]
             for a in range(0, len(allpos), CHUNK):
                 pos = allpos[a : a + CHUNK]
-                J.append(dict(name="%s:%s:%d-%d" % (sh["name"], kind, pos[0], pos[-1]), kind=kind, shape=sh, positions=pos, n=n, tier=tier, timeout=7000 if tier == "quick" else 30000, cost=300 if (sh["framing"] == "bec2" and kind == "replace") else 100))
+                J.append(dict(name="%s:%s:%d-%d" % (sh["name"], kind, pos[0], pos[-1]), kind=kind, shape=sh, positions=pos, n=n, tier=tier, timeout=7000, cost=300 if (sh["framing"] == "bec2" and kind == "replace") else 100))
         J.append(dict(name="%s:append" % sh["name"], kind="append", shape=sh, positions=[1, 2], n=n, timeout=900, cost=50))
         J.append(dict(name="%s:otherkey" % sh["name"], kind="otherkey", shape=sh, positions=[0], n=n, timeout=900, cost=50))
         J.append(dict(name="%s:undamaged-twin" % sh["name"], kind="twin", shape=sh, positions=[0], n=n, timeout=600, cost=30))
